@@ -168,7 +168,8 @@ def unify_chunks_expr(*args):
             chunks = tuple(
                 (
                     chunkss[j]
-                    if a.shape[n] > 1
+                    # (only an axis of length 1 broadcasts; an empty axis keeps its chunks)
+                    if a.shape[n] > 1 or a.shape[n] == 0
                     else (a.shape[n],) if not np.isnan(sum(chunkss[j])) else None
                 )
                 for n, j in enumerate(i)
